@@ -1,10 +1,26 @@
 import TunnoxModel.Model.C01
 /-! C01: the property as a decidable predicate on what the reader side observed. -/
 namespace Tunnox.C01
+open Gen
 
 /-- A round-trip case: the packets handed to the writer; the observation is what
 the reader returned for the bytes the writer produced, under some chunking. -/
 def holds (ps : List Pkt) (o : Obs) : Bool :=
   o.pkts == ps.map norm && o.stop == .type && o.leftover.isEmpty
+
+/-- A type byte the reader rejects after reading the whole packet: the `0x80` (encrypted) flag on anything but
+a heartbeat (`StreamProcessor` does not decrypt). -/
+def rejected (t : Nat) : Bool := packet.Type.IsEncrypted t && !packet.Type.IsHeartbeat t
+
+/-- A sequence that may contain a rejected packet: "the reader consumes exactly the bytes of each packet so that
+every following packet stays aligned" — the packets before the first rejected one are decoded, the reader
+stops with the rejection, and exactly the encodings of the following packets are still unread.  Without a
+rejected packet this is `holds`. -/
+def holdsSeq (c : Codec) (ps : List Pkt) (o : Obs) : Bool :=
+  match ps.dropWhile (fun p => !rejected (wireType p)) with
+  | [] => holds ps o
+  | _ :: post =>
+    o.pkts == (ps.takeWhile (fun p => !rejected (wireType p))).map norm && o.stop == .encrypted &&
+      o.leftover.length == (encodeAll c post).length
 
 end Tunnox.C01
